@@ -1022,7 +1022,10 @@ where
         while let Some(token) = parser.advance() {
             match token.context(ReadTokenSnafu)? {
                 // native pixel data, no offset table
-                LazyDataToken::LazyValue { .. } => {
+                token @ LazyDataToken::LazyValue { .. } => {
+                    // the value has to be consumed,
+                    // or the reader would take its bytes for the next element
+                    token.skip().context(ReadItemSnafu)?;
                     return Ok(None);
                 }
                 // fragment item data
